@@ -88,6 +88,9 @@ def run(ctx, config='rel-all'):
     from .. import runner
     from . import c12
     c12.run(runner.Sub(ctx, 'R9', 'C12'), config)
+    # ---- R10 the crate's own clients of the arena keep the allocation contract
+    from . import clients
+    clients.check(ctx, config, 'R10')
 
 
 def check_finger_store(ctx, entry, I, res, e, fn, o, where, axioms, rules=None):
